@@ -517,6 +517,8 @@ pub fn typed_cases(tier: Tier, seed: u64) -> Vec<TypedCase> {
                     }
                 }
                 rebias(&mut p, &l, &mut rng);
+                // a query needs at least one variable (an unused name variable is reported unbound)
+                let nx = if nh == 0 && nx == 0 { 1 } else { nx };
                 Mode::Partial(p, l, nh, nx)
             }
             _ => {
